@@ -29,7 +29,7 @@ ASSUMPTIONS = [
     "the Stopped tick in the middle of a Restart is not a Stop: the statement lists engine start, Stop and Pause only",
     "user output commands are the argument-less UOD commands Open1/Open2 issued through execute_control_command_from_user",
 ]
-TIERS = {"quick": {"examples": 1500, "budget_s": 100}, "thorough": {"examples": 50000, "budget_s": 1500}}
+TIERS = {"quick": {"examples": 6400, "budget_s": 100}, "thorough": {"examples": 50000, "budget_s": 1500}}
 KNOWN_EXCLUDED = {}
 
 
@@ -125,4 +125,4 @@ def run_shard(col, cfg):
             classes.append("nonsafe-initial-hw")
         col.record(case, nontrivial, classes=classes, violations=vs,
                    sample={"method": rinfo["lines"], "steps": case["steps"][:30], "hw_init": case["hw_init"]})
-    hyp_run(S.cases(with_boom=True), body, max(1, cfg["examples"] // col.nshards), shard_seed(col.seed, col.shard), col)
+    hyp_run(S.cases(with_boom=True, templates=True), body, max(1, cfg["examples"] // col.nshards), shard_seed(col.seed, col.shard), col)
